@@ -485,10 +485,21 @@ QUICK_PAIRS = [
     # operations that hold the SOURCE parent's lock across scheduling points (the move's try on the source parent then fails)
     ("S1", "move_element_here/clash", "serialize/src_parent"), ("S1", "move_element_here/clash", "sort/element"),
     ("S1", "move_element_here/clash", "remove_sub_element/referenced"), ("S1", "move_element_here/clash", "create_named_sub_element/ok"),
-    ("S1", "move_element_here/clash", "elements_dfs/src_parent"), ("S1", "move_element_here/clash_referenced", "serialize/element"),
+    ("S1", "move_element_here/clash", "elements_dfs/src_parent"), ("S1", "move_element_here/clash", "serialize/element"),
     ("S1", "move_element_here_at/clash", "remove_sub_element/referenced"), ("S1", "move_element_here_at/clash", "serialize/src_parent"),
-    ("S1", "move_element_here/foreign_clash", "serialize/file"), ("S1", "create_copied_sub_element/clash", "remove_sub_element/referenced"),
+    # (the instances clash_referenced / foreign_clash are two calls in a row and therefore only traced, not scheduled)
+    ("S1", "move_element_here/clash", "serialize/file"), ("S1", "create_copied_sub_element/clash", "remove_sub_element/referenced"),
     ("S1", "create_copied_sub_element_at/clash", "sort/element"), ("S1", "move_element_here/local", "remove_sub_element/referenced"),
+    # get-or-create of the SAME missing child from two threads: exactly one child, both calls get the same element
+    ("S1", "get_or_create_sub_element/create_which", "get_or_create_sub_element/create_which"),
+    ("S1", "get_or_create_named_sub_element/create_which", "get_or_create_named_sub_element/create_which"),
+    ("S1", "get_or_create_named_sub_element/create_pkg", "get_or_create_named_sub_element/create_pkg"),
+    ("S1", "get_or_create_sub_element/create_which", "create_sub_element/ok"),
+    ("S1", "get_or_create_named_sub_element/create_which", "create_named_sub_element/ok"),
+    ("S1", "get_or_create_sub_element/get", "remove_sub_element_kind/ok"),
+    # a move whose destination lies below the moved element's current parent, against readers / writers walking down from that parent
+    ("S3", "move_element_here/into_sibling_subtree", "serialize/element"), ("S3", "move_element_here/into_sibling_subtree", "serialize/file"),
+    ("S3", "move_element_here_at/into_sibling_subtree", "sort/model"), ("S3", "move_element_here/into_sibling_subtree", "remove_sub_element/subtree"),
 ]
 TRIPLES = [
     ("S1", "serialize/element", "set_attribute/ok", "path/named"), ("S1", "set_item_name/referenced", "set_reference_target/ok", "check_references/model"),
@@ -655,6 +666,8 @@ if __name__ == "__main__":
         old = load_baseline() or {}
         # tuples in which a call gives up with the lock error but has an effect TODAY (found by the thorough exploration; kept by hand)
         nb["c16_locked_with_effect"] = old.get("c16_locked_with_effect", [])
+        # written by `python3 checks/c16.py baseline-pairs`
+        nb["c16_serializable_pairs"] = old.get("c16_serializable_pairs", [])
         json.dump(nb, open(BASELINE, "w"), indent=1, sort_keys=True)
         print("baseline written: %d instances" % len(insts))
     else:
